@@ -15,7 +15,8 @@ use midnight_curves::{
     k256::{Fp as SecpFp, Fq as SecpFq, K256},
     Fp as BlsFp, Fr as JFr, G1Projective, JubjubExtended, JubjubSubgroup,
 };
-use mzkh::{fe_big, fe_from_big};
+use midnight_circuits::CircuitField;
+use mzkh::fe_from_big;
 use num_bigint::BigUint;
 use num_traits::{One, Zero};
 use rand::Rng;
@@ -43,8 +44,17 @@ pub enum Item {
     Big(u32, BigUint),
 }
 
-pub fn hex<T: PrimeField>(x: &T) -> String {
-    mzkh::fe_hex(x)
+/// Integer value of a field element, independent of the byte order of `to_repr` (k256 is
+/// big-endian): `CircuitField::to_biguint`, cross-checked by rebuilding the element from the
+/// integer with field arithmetic only.
+pub fn big_of<T: CircuitField>(x: &T) -> BigUint {
+    let b = x.to_biguint();
+    assert!(fe_from_big::<T>(&b) == *x, "to_biguint is not the integer value");
+    b
+}
+
+pub fn hex<T: CircuitField>(x: &T) -> String {
+    mzkh::big_hex(&big_of(x))
 }
 
 pub fn fq_list(v: &[F]) -> String {
@@ -138,13 +148,13 @@ impl Item {
 // ---------------------------------------------------------------------------------------------
 // boundary representatives
 
-pub fn modulus<T: PrimeField>() -> BigUint {
-    fe_big(&(-T::ONE)) + BigUint::one()
+pub fn modulus<T: CircuitField>() -> BigUint {
+    big_of(&(-T::ONE)) + BigUint::one()
 }
 
 /// Boundary integers of a prime field with emulation limbs of `w` bits: 0, 1, 2, p-1, p-2,
 /// limb-boundary values (2^(w i) - 1, 2^(w i), 2^(w i) + 1) and all-maximal-limb patterns.
-pub fn field_boundaries<T: PrimeField>(w: u32, nlimbs: u32) -> Vec<T> {
+pub fn field_boundaries<T: CircuitField>(w: u32, nlimbs: u32) -> Vec<T> {
     let p = modulus::<T>();
     let mut v: Vec<BigUint> = vec![BigUint::zero(), BigUint::one(), BigUint::from(2u8), &p - 1u8, &p - 2u8];
     for i in 1..nlimbs {
@@ -224,7 +234,7 @@ pub fn bls_points(rng: &mut ChaCha8Rng, n: usize) -> Vec<G1Projective> {
 pub fn jscalars(rng: &mut ChaCha8Rng, n: usize) -> Vec<JFr> {
     let mut v = vec![JFr::ZERO, JFr::ONE, -JFr::ONE, -JFr::ONE - JFr::ONE, JFr::from(2u64)];
     // 2^251 (top bit of the 252-bit window), 2^251 - 1
-    let t = fe_from_big::<JFr>(&(BigUint::one() << 251));
+    let t = fe_from_big::<JFr>(&(BigUint::one() << 251u32));
     v.push(t);
     v.push(t - JFr::ONE);
     for _ in 0..n {
